@@ -4,6 +4,7 @@ documented path semantics).  Only property statements live here; helpers are in 
 -/
 import MagpyVerif.Lemmas.Path
 import MagpyVerif.Lemmas.Tree
+import MagpyVerif.Lemmas.Angax
 namespace MagpyVerif.C09
 open MagpyVerif Gen Spec
 variable {G V : Type}
@@ -91,5 +92,127 @@ example : window true 3 1 (some 4) = ⟨0, 4, 5, 5⟩ := by decide
 example : window true 3 1 (some (-1)) = ⟨0, 2, 3, 3⟩ := by decide
 example : (applyMove (G := Int) (PathIn.vector [10, 20]) (some (-4)) ⟨[1, 2, 3], [0, 0, 0]⟩).pos
     = [11, 21, 2, 3] := by decide
+
+/-! ## `rotate_from_angax`: the angle / axis → rotation-vector conversion (Model/Angax.lean)
+
+The model runs at `Float` in the driver (`path` stream, op `angax`: the model converts angle and axis
+itself, `from_rotvec` is Rodrigues' matrix snapped to the octahedral group) and is reasoned about at
+`ℝ` here.  `from_rotvec` itself (scipy) stays a parameter `f`. -/
+
+open MagpyVerif.Angax MagpyVerif.Kern
+
+/-- C09(g): which axes `rotate_from_angax` accepts — `'x'`, `'y'`, `'z'` are the unit vectors, any other
+string and the zero vector are rejected with the library's input error, every non-zero vector is
+taken as it is; an accepted axis has positive length, so the normalisation `axis / |axis|` is a
+division by a non-zero number and yields a unit vector.  (Exact arithmetic: in IEEE double a non-zero
+axis shorter than ≈1.5e-162 has `norm = 0` after underflow, passes the `(0,0,0)` test and produces
+NaN rotation vectors — see the findings.) -/
+theorem angax_axis_spec :
+    axisVec (.str "x" : AxisIn ℝ) = .ok ⟨1, 0, 0⟩ ∧ axisVec (.str "y" : AxisIn ℝ) = .ok ⟨0, 1, 0⟩ ∧
+    axisVec (.str "z" : AxisIn ℝ) = .ok ⟨0, 0, 1⟩ ∧
+    (∀ s : String, s ≠ "x" → s ≠ "y" → s ≠ "z" → axisVec (.str s : AxisIn ℝ) = .error .badUserInput) ∧
+    axisVec (.vec (⟨0, 0, 0⟩ : V3 ℝ)) = .error .badUserInput ∧
+    (∀ v : V3 ℝ, v ≠ ⟨0, 0, 0⟩ → axisVec (.vec v) = .ok v) ∧
+    (∀ (axis : AxisIn ℝ) a, axisVec axis = .ok a → 0 < Kern.norm a ∧ Kern.norm (vd a (Kern.norm a)) = 1) := by
+  refine ⟨by simp [axisVec, Kern.n], by simp [axisVec, Kern.n], by simp [axisVec, Kern.n], ?_, ?_, ?_, ?_⟩
+  · intro s hx hy hz
+    simp [axisVec, hx, hy, hz]
+  · simp [axisVec, allZero]
+  · intro v hv
+    have : allZero v ≠ true := fun h => hv ((allZero_iff v).mp h)
+    simp [axisVec, this]
+  · intro axis a h
+    have hne := axisVec_ok_ne_zero h
+    exact ⟨norm_pos_of_ne_zero a hne, norm_unit a hne⟩
+
+/-- C09(h): the rotation vectors handed to `Rotation.from_rotvec` are `θ' · axis/|axis|` with
+`θ' = θ·π/180` when `degrees` else `θ` — ONE vector for scalar `angle` (scalar rotation input: the
+whole path is rotated), one per entry and in order for vector `angle` (vector input: merged /
+appended), so the scalar/vector path semantics of `rotate` carry over; a refused axis is the
+library's input error whatever the angle. -/
+theorem angax_rotvec_spec (angle : PathIn ℝ) (axis : AxisIn ℝ) (degrees : Bool) :
+    (∀ e, axisVec axis = .error e → angaxRotvecs angle axis degrees = .error e) ∧
+    (∀ a, axisVec axis = .ok a →
+      angaxRotvecs angle axis degrees =
+        .ok (angle.map fun θ => vs (if degrees then θ * Real.pi / 180 else θ) (vd a (Kern.norm a)))) ∧
+    (∀ rv, angaxRotvecs angle axis degrees = .ok rv →
+      rv.isScalar = angle.isScalar ∧ rv.lenip = angle.lenip ∧ rv.len0 = angle.len0 ∧
+      ∀ (i : Nat) (θ : ℝ), angle.toList[i]? = some θ → ∃ v, rv.toList[i]? = some v ∧
+        Kern.norm v = |if degrees then θ * Real.pi / 180 else θ|) := by
+  have key : ∀ a, axisVec axis = .ok a → angaxRotvecs angle axis degrees =
+      .ok (angle.map fun θ => vs (if degrees then θ * Real.pi / 180 else θ) (vd a (Kern.norm a))) := by
+    intro a h
+    simp only [angaxRotvecs, h]
+    congr 2
+    funext θ
+    rw [rotvecOf_eq, toRad_eq]
+  refine ⟨?_, key, ?_⟩
+  · intro e h
+    simp [angaxRotvecs, h]
+  · intro rv h
+    cases ha : axisVec axis with
+    | error e => simp [angaxRotvecs, ha] at h
+    | ok a =>
+      rw [key a ha] at h
+      cases h
+      have hu := norm_unit a (axisVec_ok_ne_zero ha)
+      cases angle with
+      | scalar θ =>
+        refine ⟨rfl, rfl, rfl, ?_⟩
+        intro i θ' hi
+        simp only [PathIn.toList, PathIn.map] at hi ⊢
+        cases i with
+        | zero =>
+          simp only [List.getElem?_cons_zero, Option.some.injEq] at hi
+          subst hi
+          exact ⟨_, rfl, norm_vs_unit _ _ hu⟩
+        | succ j => simp at hi
+      | vector xs =>
+        refine ⟨rfl, by simp [PathIn.lenip, PathIn.map], by simp [PathIn.len0, PathIn.map], ?_⟩
+        intro i θ' hi
+        simp only [PathIn.toList, PathIn.map, List.getElem?_map] at hi ⊢
+        rw [hi]
+        exact ⟨_, rfl, norm_vs_unit _ _ hu⟩
+
+/-- C09(i): `rotate_from_angax` IS `rotate(from_rotvec(rotation vectors), anchor, start)` on the same
+node, or a rejected call (state unchanged) when the axis is refused — by definition of the model,
+for every carrier and every `from_rotvec`. -/
+theorem rotate_from_angax_eq_rotate {α : Type} [Num α] [Mul G] [Inv G] [One G] [SMul G V] [Add V] [Sub V] [Zero V]
+    (f : V3 α → G) (t : Node G V) (addr : List Nat) (angle : PathIn α) (axis : AxisIn α) (degrees : Bool)
+    (anchor : Option (PathIn V)) (start : Option Int) :
+    rotateFromAngax f t addr angle axis degrees anchor start =
+      match angaxRotvecs angle axis degrees with
+      | .error _ => t
+      | .ok rv => t.step (.rotate addr (rv.map f) anchor start) := by
+  unfold rotateFromAngax angaxOp
+  cases angaxRotvecs angle axis degrees <;> rfl
+
+/-- consequently the documented path semantics (C09(b)) holds for `rotate_from_angax` on a childless or
+top-level object, with rotations `f (θ'_k · â)` -/
+theorem angax_refines_spec [Mul G] [SMul G V] [Add V] [Sub V]
+    (f : V3 ℝ → G) (angle : PathIn ℝ) (axis : AxisIn ℝ) (degrees : Bool) (a : V3 ℝ) (hax : axisVec axis = .ok a)
+    (anchor : Option (PathIn V)) (start : Option Int) (o : Obj G V)
+    (hne : o.pos ≠ []) (hlen : o.ori.length = o.pos.length)
+    (hr : angle.WF) (ha : ∀ a, anchor = some a → a.WF) (i : Nat) :
+    let rot := angle.map fun θ => f (vs (if degrees then θ * Real.pi / 180 else θ) (vd a (Kern.norm a)))
+    angaxRotvecs angle axis degrees = .ok (angle.map fun θ => vs (if degrees then θ * Real.pi / 180 else θ) (vd a (Kern.norm a))) ∧
+    ((applyRotation rot anchor start none o).pos[i]?, (applyRotation rot anchor start none o).ori[i]?) =
+      rotateAt rot anchor start o.pos o.ori i := by
+  refine ⟨(angax_rotvec_spec angle axis degrees).2.1 a hax, ?_⟩
+  apply rotate_refines_spec _ anchor start o hne hlen _ ha i
+  cases angle with
+  | scalar _ => trivial
+  | vector xs =>
+    simp only [PathIn.map, PathIn.WF] at hr ⊢
+    simpa using hr
+
+-- non-vacuity: 90° about 'z' in degrees is the rotation vector (0, 0, π/2); (0,0,0) is refused
+example : angaxRotvecs (.scalar (90 : ℝ)) (.str "z") true = .ok (.scalar ⟨0, 0, Real.pi / 2⟩) := by
+  rw [(angax_rotvec_spec _ _ _).2.1 _ angax_axis_spec.2.2.1]
+  simp only [PathIn.map, if_true, vs, vd, Kern.norm, sqrt_real]
+  norm_num
+  ring
+example : angaxRotvecs (.vector [(1 : ℝ), 2]) (.vec ⟨0, 0, 0⟩) false = .error .badUserInput :=
+  (angax_rotvec_spec _ _ _).1 _ angax_axis_spec.2.2.2.2.1
 
 end MagpyVerif.C09
